@@ -54,3 +54,16 @@ def extend(g, api):
                 raise Exception('stateless_reset: expected shape not found: ' + n)
         return 1
     g.nat('resetShapeChecked', f'{ep}::stateless_reset (headroom / padding / interval expressions as modelled)', reset_shape)
+
+    def close_gate():
+        body = api.strip_comments(api.fn_body(api.read(conn), 'poll_transmit'))
+        # shape of the send gate as modelled in Conn/Lifecycle.lean `sendsDatagram`
+        need = [r'if\s+ack_eliciting\s*&&\s*self\.spaces\[space_id\]\.loss_probes\s*==\s*0\s*\{',
+                r'self\.path\.in_flight\.bytes\s*\+\s*bytes_to_send\s*>=\s*self\.path\.congestion\.window\(\)']
+        for n in need:
+            if not re.search(n, body):
+                raise Exception('poll_transmit: send gate shape changed: ' + n)
+        m = re.search(r'if\s+close\s*\{\s*ack_eliciting\s*=\s*false\s*;\s*\}', body)
+        i_gate = body.find('if ack_eliciting && self.spaces[space_id].loss_probes == 0')
+        return 'true' if (m and m.start() < i_gate) else 'false'
+    g.term('closeClearsAckEliciting', 'Bool', f'{conn}::Connection::poll_transmit `if close {{ ack_eliciting = false; }}` before the congestion/pacing gate', close_gate)
